@@ -46,9 +46,10 @@ def c11_dir(job, drv):
         protokeys = job["protokeys"]
         cfg_ref = h.cacheless_config(drv, w.root, overrides)
         refs = {}
-        for key, rq in protokeys.items():
-            r = drv.serve_once(cfg_ref, drv.s2b(rq["data"]), tls=rq["tls"])
-            refs[key] = h.mask(drv.s2b(r["out"]))
+        with h.nocache():
+            for key, rq in protokeys.items():
+                r = drv.serve_once(cfg_ref, drv.s2b(rq["data"]), tls=rq["tls"])
+                refs[key] = h.mask(drv.s2b(r["out"]))
         wk = job["writer_key"]
         r = drv.serve_once(w.config, drv.s2b(protokeys[wk]["data"]), tls=protokeys[wk]["tls"])
         if h.mask(drv.s2b(r["out"])) != refs[wk] or not os.path.exists(cachepath):
@@ -123,6 +124,65 @@ def c11_dir(job, drv):
                 followups.append([n, cls, cls2, bool(o2["opened_w"])])
                 if cls2 != "ok":
                     followup_bad.append(n)
+        # ---- persistent write faults: a file system with room for k bytes of the cache file, for >= 2 requests ----
+        import errno as _errno
+        wf = {"ks": 0, "requests": 0, "bad": [], "by_errno": {}, "examples": [], "prefix_left": 0}
+        stride = int(job.get("fault_stride", 1))
+        kinds = [_errno.ENOSPC, _errno.EDQUOT, _errno.EFBIG, _errno.EIO]
+        if job.get("write_faults", True):
+            ks = [n for n in range(0, size) if n % S == rem and (n // S) % stride == 0]
+            if rem == 0:
+                ks = sorted(set(ks) | {0, 1, 2, size - 1})
+            if job.get("fault_only") is not None:
+                ks = [k for k in job["fault_only"] if k < size]
+            for idx, k in enumerate(ks):
+                err = kinds[idx % len(kinds)]
+                ename = _errno.errorcode[err]
+                init = ("absent", "expired", "cut-off")[idx % 3]
+                if init == "absent":
+                    if os.path.exists(cachepath):
+                        os.unlink(cachepath)
+                elif init == "expired":
+                    _put(cachepath, B)
+                    st = os.stat(cachepath)
+                    os.utime(cachepath, ns=(st.st_atime_ns, st.st_mtime_ns - 100000 * 10 ** 9))
+                else:
+                    _put(cachepath, B[:k // 2])
+                wf["ks"] += 1
+                wf["by_errno"][ename] = wf["by_errno"].get(ename, 0) + 1
+                steps = []
+                with h.write_fault("/.cache.pygopherd.dir", k, err):
+                    for step in ("first request on the full file system", "second request on the full file system"):
+                        key = seq[(k + len(steps)) % len(seq)]
+                        rq = protokeys[key]
+                        r = drv.serve_once(w.config, drv.s2b(rq["data"]), tls=rq["tls"])
+                        steps.append((step, key, h.mask(drv.s2b(r["out"])), r))
+                        try:
+                            with open(cachepath, "rb") as f:
+                                if f.read() == B[:k]:
+                                    wf["prefix_left"] += 1
+                        except OSError:
+                            pass
+                key = seq[(k + 2) % len(seq)]
+                rq = protokeys[key]
+                r = drv.serve_once(w.config, drv.s2b(rq["data"]), tls=rq["tls"])
+                steps.append(("request after space became available", key, h.mask(drv.s2b(r["out"])), r))
+                with open(cachepath, "rb") as f:
+                    healed = f.read() == B
+                wf["requests"] += len(steps)
+                for step, key, out, r in steps:
+                    if out != refs[key] or r["exc"]:
+                        cls_ = "empty" if (not out or r["exc"]) else "wrong"
+                        wf["bad"].append([k, ename, cls_])
+                        if sum(1 for e in wf["examples"] if e["class"] == cls_) < 3:
+                            wf["examples"].append({"room_for_bytes": k, "errno": ename, "cache_file_before": init, "step": step,
+                                                   "protocol": key, "class": cls_, "response_latin1": drv.b2s(out[:300]),
+                                                   "expected_latin1": drv.b2s(refs[key][:300]), "exception": r["exc"],
+                                                   "log": r["log"][-2:]})
+                        break
+                else:
+                    if not healed:
+                        wf["bad"].append([k, ename, "not-rewritten"])
         prefix_fail = {k: list(v) for k, v in fails.items()}
         not_restored_prefix = list(not_restored)
         first = rem == 0
@@ -187,7 +247,7 @@ def c11_dir(job, drv):
             resource.setrlimit(resource.RLIMIT_AS, (soft, hard))
         return {"size": size, "tested": tested, "range": [lo, hi], "prefix_fail_ranges": prefix_fail,
                 "prefix_fail_counts": prefix_counts, "others": others, "not_restored": not_restored, "first_shard": first, "mod": [S, rem],
-                "followup_bad": followup_bad, "followups": followups, "examples": examples, "secs": round(time.time() - t0, 2),
+                "write_faults": wf, "followup_bad": followup_bad, "followups": followups, "examples": examples, "secs": round(time.time() - t0, 2),
                 "cache_latin1": drv.b2s(B) if job.get("return_cache") else None,
                 "pickle": {"single_pickle_of_a_list": single_pickle, "strict_prefixes": size, "undecodable": undecodable, "decodable_prefixes": decodable_prefixes[:10],
                            "exception_types": exc_types, "roundtrip_identity": roundtrip, "zero_filled_fails": zero_fails},
